@@ -175,12 +175,25 @@ theorem stBind_pure {S E : Type} (r : S × Option E) : stBind r (fun s => (s, no
 theorem hvAddDs_eq_spec {S D G E : Type} (o : StoreOps S D G E) (dataNameNone sync : Bool) (ow : Option Bool) (N : D)
     (g : Option G) (st : S) :
     Gen.hvAddDs o dataNameNone sync ow N g st = addDsSpec o dataNameNone sync ow N g st := by
-  simp only [Gen.hvAddDs, Gen.Default.hvAddDs, addDsSpec, stBind_pure]
-  congr 1
-  funext st1
-  by_cases hm : o.memIsNone st1 = true
-  · simp [addDsTail, hm]
-  · rcases ow with _ | _ | _ <;> simp [addDsTail, hm, owKind] <;> rfl
+  -- the translated body calls `Gen.hvLoadFull` / `Gen.hvSaveFull`; the committed last-good body (used when the method
+  -- cannot be translated) calls their last-good versions, which are the same functions unless those changed too
+  first
+  | (simp only [Gen.hvAddDs, addDsSpec, stBind_pure]
+     congr 1
+     funext st1
+     by_cases hm : o.memIsNone st1 = true
+     · simp [addDsTail, hm]
+     · rcases ow with _ | _ | _ <;> simp [addDsTail, hm, owKind] <;> rfl
+     done)
+  | (have e1 : @Gen.hvLoadFull = @Gen.Default.hvLoadFull := rfl
+     have e2 : @Gen.hvSaveFull = @Gen.Default.hvSaveFull := rfl
+     simp only [Gen.hvAddDs, Gen.Default.hvAddDs, addDsSpec, stBind_pure, e1, e2]
+     congr 1
+     funext st1
+     by_cases hm : o.memIsNone st1 = true
+     · simp [addDsTail, hm, e2]
+     · rcases ow with _ | _ | _ <;> simp [addDsTail, hm, owKind, e2] <;> rfl
+     done)
 
 def polArg : Policy → Option Bool
   | .none => none
